@@ -31,14 +31,15 @@ class Index:
                             self.callsites.setdefault(c, []).append((f, n))
 
     def bindings(self, f):
-        b = self.bind.get(f.key)
+        ck = getattr(f, "cache_key", f.key)
+        b = self.bind.get(ck)
         if b is None:
             b = {}
             for i, p in enumerate(f.info.get("params", [])):
                 for lid, name in pat_bindings(p):
                     b[lid] = ("param", i, p)
             _collect_bindings(f.hir, b)
-            self.bind[f.key] = b
+            self.bind[ck] = b
         return b
 
 
